@@ -15,8 +15,9 @@
      peer close  PClose1 / PClose2     halfClose: CAS opened->halfClosed ; safeCloseNotify   (336-338)
      local close LLoad / LCas / LClean / LNotify   Stream.close: load state; CAS ->closed; clean();
                                        safeCloseNotify only if the old state was opened     (289-301)
-                 LDefer    Stream.Close that finds an OnData callback in progress (275-283): only
-                           CAS opened->halfClosed, the close itself is deferred; closeNotifyCh stays open
+                 LDefer1 / LDefer2   Stream.Close that finds an OnData callback in progress (275-288):
+                           CAS opened->halfClosed (the close itself is deferred to the callback goroutine),
+                           then - if the CAS succeeded - safeCloseNotify
      session     SClose    Session.Close's loop: stream.safeCloseNotify()                   (session.go 307-311)
      deadline    SetDL d   SetReadDeadline, by the reading goroutine between two calls
      clock       Tick d ; Fire (the runtime delivers the timer value once now >= its time)
@@ -49,7 +50,7 @@ Record st := {
   ppc : bool;          (* halfClose is between its CAS and safeCloseNotify *)
   lc : lpc;            (* Stream.close in progress *)
   sclosing : bool;     (* Session.Close has notified this stream *)
-  cbhalf : bool;       (* ghost: half-closed by a local Close that found a callback in progress (no notify) *)
+  dpc : bool;          (* a Stream.Close that found a callback in progress is between its CAS and safeCloseNotify *)
   now : Z;
   dl : option Z;       (* s.readDeadline (None = zero time) *)
   tmr : option Z;      (* the timer is armed and fires at this time *)
@@ -63,14 +64,14 @@ Inductive ev :=
 | EAdd (n : nat) | EFin
 | PClose1 | PClose2
 | LLoad | LCas | LClean | LNotify
-| LDefer
+| LDefer1 | LDefer2
 | SClose
 | SetDL (d : option Z)
 | Tick (d : Z) | Fire.
 
 Definition init : st :=
   {| pend := 0; rbuf := 0; token := false; closeN := false; ss := SOpen; epc := false; ppc := false; lc := LIdle;
-     sclosing := false; cbhalf := false; now := 0; dl := None; tmr := None; tch := false; use_t := false; armed := 0;
+     sclosing := false; dpc := false; now := 0; dl := None; tmr := None; tch := false; use_t := false; armed := 0;
      rd := RIdle; minsz := 0; res := None |}.
 
 Definition sst_eqb (a b : sst) : bool :=
@@ -79,22 +80,22 @@ Definition sst_eqb (a b : sst) : bool :=
 (* return before the timer section: no deferred cleanup *)
 Definition finish_early (s : st) (r : result) : st :=
   {| pend := pend s; rbuf := rbuf s; token := token s; closeN := closeN s; ss := ss s; epc := epc s; ppc := ppc s;
-     lc := lc s; sclosing := sclosing s; cbhalf := cbhalf s; now := now s; dl := dl s; tmr := tmr s; tch := tch s; use_t := use_t s;
+     lc := lc s; sclosing := sclosing s; dpc := dpc s; now := now s; dl := dl s; tmr := tmr s; tch := tch s; use_t := use_t s;
      armed := armed s; rd := RDone; minsz := minsz s; res := Some r |}.
 (* return from the select loop: deferred Stop + drain *)
 Definition finish_late (s : st) (r : result) : st :=
   {| pend := pend s; rbuf := rbuf s; token := token s; closeN := closeN s; ss := ss s; epc := epc s; ppc := ppc s;
-     lc := lc s; sclosing := sclosing s; cbhalf := cbhalf s; now := now s; dl := dl s; tmr := None; tch := false; use_t := use_t s;
+     lc := lc s; sclosing := sclosing s; dpc := dpc s; now := now s; dl := dl s; tmr := None; tch := false; use_t := use_t s;
      armed := armed s; rd := RDone; minsz := minsz s; res := Some r |}.
 
 Definition move_to (s : st) : st :=
   {| pend := 0; rbuf := (rbuf s + pend s)%nat; token := token s; closeN := closeN s; ss := ss s; epc := epc s;
-     ppc := ppc s; lc := lc s; sclosing := sclosing s; cbhalf := cbhalf s; now := now s; dl := dl s; tmr := tmr s; tch := tch s;
+     ppc := ppc s; lc := lc s; sclosing := sclosing s; dpc := dpc s; now := now s; dl := dl s; tmr := tmr s; tch := tch s;
      use_t := use_t s; armed := armed s; rd := rd s; minsz := minsz s; res := res s |}.
 
 Definition set_rd (s : st) (p : rpc) : st :=
   {| pend := pend s; rbuf := rbuf s; token := token s; closeN := closeN s; ss := ss s; epc := epc s; ppc := ppc s;
-     lc := lc s; sclosing := sclosing s; cbhalf := cbhalf s; now := now s; dl := dl s; tmr := tmr s; tch := tch s; use_t := use_t s;
+     lc := lc s; sclosing := sclosing s; dpc := dpc s; now := now s; dl := dl s; tmr := tmr s; tch := tch s; use_t := use_t s;
      armed := armed s; rd := p; minsz := minsz s; res := res s |}.
 
 Definition reader_step (s : st) : st :=
@@ -109,11 +110,11 @@ Definition reader_step (s : st) : st :=
     match dl s with
     | Some d =>
       {| pend := pend s; rbuf := rbuf s; token := token s; closeN := closeN s; ss := ss s; epc := epc s; ppc := ppc s;
-         lc := lc s; sclosing := sclosing s; cbhalf := cbhalf s; now := now s; dl := dl s; tmr := Some d; tch := tch s; use_t := true;
+         lc := lc s; sclosing := sclosing s; dpc := dpc s; now := now s; dl := dl s; tmr := Some d; tch := tch s; use_t := true;
          armed := d; rd := RParked; minsz := minsz s; res := res s |}
     | None =>
       {| pend := pend s; rbuf := rbuf s; token := token s; closeN := closeN s; ss := ss s; epc := epc s; ppc := ppc s;
-         lc := lc s; sclosing := sclosing s; cbhalf := cbhalf s; now := now s; dl := dl s; tmr := tmr s; tch := tch s; use_t := false;
+         lc := lc s; sclosing := sclosing s; dpc := dpc s; now := now s; dl := dl s; tmr := tmr s; tch := tch s; use_t := false;
          armed := armed s; rd := RParked; minsz := minsz s; res := res s |}
     end
   | RWokeN =>
@@ -133,7 +134,7 @@ Definition wake (s : st) (b : branch) : st :=
     | BNotify =>
       if token s then
         {| pend := pend s; rbuf := rbuf s; token := false; closeN := closeN s; ss := ss s; epc := epc s; ppc := ppc s;
-           lc := lc s; sclosing := sclosing s; cbhalf := cbhalf s; now := now s; dl := dl s; tmr := tmr s; tch := tch s; use_t := use_t s;
+           lc := lc s; sclosing := sclosing s; dpc := dpc s; now := now s; dl := dl s; tmr := tmr s; tch := tch s; use_t := use_t s;
            armed := armed s; rd := RWokeN; minsz := minsz s; res := res s |}
       else s
     | BClose => if closeN s then set_rd s RWokeC else s
@@ -148,7 +149,7 @@ Definition step (s : st) (e : ev) : st :=
     match rd s with
     | RIdle | RDone =>
       {| pend := pend s; rbuf := rbuf s; token := token s; closeN := closeN s; ss := ss s; epc := epc s; ppc := ppc s;
-         lc := lc s; sclosing := sclosing s; cbhalf := cbhalf s; now := now s; dl := dl s; tmr := tmr s; tch := tch s; use_t := false;
+         lc := lc s; sclosing := sclosing s; dpc := dpc s; now := now s; dl := dl s; tmr := tmr s; tch := tch s; use_t := false;
          armed := armed s; rd := RCheck; minsz := m; res := None |}
     | _ => s
     end
@@ -157,30 +158,30 @@ Definition step (s : st) (e : ev) : st :=
   | EAdd n =>
     if epc s || (n =? 0)%nat then s else
       {| pend := (pend s + n)%nat; rbuf := rbuf s; token := token s; closeN := closeN s; ss := ss s; epc := true;
-         ppc := ppc s; lc := lc s; sclosing := sclosing s; cbhalf := cbhalf s; now := now s; dl := dl s; tmr := tmr s; tch := tch s;
+         ppc := ppc s; lc := lc s; sclosing := sclosing s; dpc := dpc s; now := now s; dl := dl s; tmr := tmr s; tch := tch s;
          use_t := use_t s; armed := armed s; rd := rd s; minsz := minsz s; res := res s |}
   | EFin =>
     if epc s then
       if sst_eqb (ss s) SClosed then
         {| pend := 0; rbuf := 0; token := token s; closeN := closeN s; ss := ss s; epc := false;
-           ppc := ppc s; lc := lc s; sclosing := sclosing s; cbhalf := cbhalf s; now := now s; dl := dl s; tmr := tmr s; tch := tch s;
+           ppc := ppc s; lc := lc s; sclosing := sclosing s; dpc := dpc s; now := now s; dl := dl s; tmr := tmr s; tch := tch s;
            use_t := use_t s; armed := armed s; rd := rd s; minsz := minsz s; res := res s |}
       else
         {| pend := pend s; rbuf := rbuf s; token := true; closeN := closeN s; ss := ss s; epc := false;
-           ppc := ppc s; lc := lc s; sclosing := sclosing s; cbhalf := cbhalf s; now := now s; dl := dl s; tmr := tmr s; tch := tch s;
+           ppc := ppc s; lc := lc s; sclosing := sclosing s; dpc := dpc s; now := now s; dl := dl s; tmr := tmr s; tch := tch s;
            use_t := use_t s; armed := armed s; rd := rd s; minsz := minsz s; res := res s |}
     else s
   | PClose1 =>
     if ppc s then s else
       if sst_eqb (ss s) SOpen then
         {| pend := pend s; rbuf := rbuf s; token := token s; closeN := closeN s; ss := SHalf; epc := epc s;
-           ppc := true; lc := lc s; sclosing := sclosing s; cbhalf := cbhalf s; now := now s; dl := dl s; tmr := tmr s; tch := tch s;
+           ppc := true; lc := lc s; sclosing := sclosing s; dpc := dpc s; now := now s; dl := dl s; tmr := tmr s; tch := tch s;
            use_t := use_t s; armed := armed s; rd := rd s; minsz := minsz s; res := res s |}
       else s
   | PClose2 =>
     if ppc s then
       {| pend := pend s; rbuf := rbuf s; token := token s; closeN := true; ss := ss s; epc := epc s;
-         ppc := false; lc := lc s; sclosing := sclosing s; cbhalf := cbhalf s; now := now s; dl := dl s; tmr := tmr s; tch := tch s;
+         ppc := false; lc := lc s; sclosing := sclosing s; dpc := dpc s; now := now s; dl := dl s; tmr := tmr s; tch := tch s;
          use_t := use_t s; armed := armed s; rd := rd s; minsz := minsz s; res := res s |}
     else s
   | LLoad =>
@@ -188,7 +189,7 @@ Definition step (s : st) (e : ev) : st :=
     | LIdle =>
       if sst_eqb (ss s) SClosed then s else
         {| pend := pend s; rbuf := rbuf s; token := token s; closeN := closeN s; ss := ss s; epc := epc s;
-           ppc := ppc s; lc := LLoaded (ss s); sclosing := sclosing s; cbhalf := cbhalf s; now := now s; dl := dl s; tmr := tmr s;
+           ppc := ppc s; lc := LLoaded (ss s); sclosing := sclosing s; dpc := dpc s; now := now s; dl := dl s; tmr := tmr s;
            tch := tch s; use_t := use_t s; armed := armed s; rd := rd s; minsz := minsz s; res := res s |}
     | _ => s
     end
@@ -197,11 +198,11 @@ Definition step (s : st) (e : ev) : st :=
     | LLoaded old =>
       if sst_eqb (ss s) old then
         {| pend := pend s; rbuf := rbuf s; token := token s; closeN := closeN s; ss := SClosed; epc := epc s;
-           ppc := ppc s; lc := LCased old; sclosing := sclosing s; cbhalf := cbhalf s; now := now s; dl := dl s; tmr := tmr s;
+           ppc := ppc s; lc := LCased old; sclosing := sclosing s; dpc := dpc s; now := now s; dl := dl s; tmr := tmr s;
            tch := tch s; use_t := use_t s; armed := armed s; rd := rd s; minsz := minsz s; res := res s |}
       else
         {| pend := pend s; rbuf := rbuf s; token := token s; closeN := closeN s; ss := ss s; epc := epc s;
-           ppc := ppc s; lc := LIdle; sclosing := sclosing s; cbhalf := cbhalf s; now := now s; dl := dl s; tmr := tmr s;
+           ppc := ppc s; lc := LIdle; sclosing := sclosing s; dpc := dpc s; now := now s; dl := dl s; tmr := tmr s;
            tch := tch s; use_t := use_t s; armed := armed s; rd := rd s; minsz := minsz s; res := res s |}
     | _ => s
     end
@@ -209,7 +210,7 @@ Definition step (s : st) (e : ev) : st :=
     match lc s with
     | LCased old =>
       {| pend := 0; rbuf := 0; token := token s; closeN := closeN s; ss := ss s; epc := epc s;
-         ppc := ppc s; lc := LCleaned old; sclosing := sclosing s; cbhalf := cbhalf s; now := now s; dl := dl s; tmr := tmr s;
+         ppc := ppc s; lc := LCleaned old; sclosing := sclosing s; dpc := dpc s; now := now s; dl := dl s; tmr := tmr s;
          tch := tch s; use_t := use_t s; armed := armed s; rd := rd s; minsz := minsz s; res := res s |}
     | _ => s
     end
@@ -217,34 +218,42 @@ Definition step (s : st) (e : ev) : st :=
     match lc s with
     | LCleaned old =>
       {| pend := pend s; rbuf := rbuf s; token := token s; closeN := closeN s || sst_eqb old SOpen; ss := ss s; epc := epc s;
-         ppc := ppc s; lc := LIdle; sclosing := sclosing s; cbhalf := cbhalf s; now := now s; dl := dl s; tmr := tmr s;
+         ppc := ppc s; lc := LIdle; sclosing := sclosing s; dpc := dpc s; now := now s; dl := dl s; tmr := tmr s;
          tch := tch s; use_t := use_t s; armed := armed s; rd := rd s; minsz := minsz s; res := res s |}
     | _ => s
     end
-  | LDefer =>
-    (* Stream.Close (275-285) while callbackInProcess = 1 (an OnData is running): only
-       CAS(state, opened -> halfClosed); the real close is left to the callback goroutine.  NO safeCloseNotify. *)
+  | LDefer1 =>
+    (* Stream.Close (275-288) while callbackInProcess = 1 (an OnData is running): CAS(state, opened ->
+       halfClosed); the close itself is left to the callback goroutine ... *)
+    if dpc s then s else
     if sst_eqb (ss s) SOpen then
       {| pend := pend s; rbuf := rbuf s; token := token s; closeN := closeN s; ss := SHalf; epc := epc s;
-         ppc := ppc s; lc := lc s; sclosing := sclosing s; cbhalf := true; now := now s; dl := dl s; tmr := tmr s;
+         ppc := ppc s; lc := lc s; sclosing := sclosing s; dpc := true; now := now s; dl := dl s; tmr := tmr s;
+         tch := tch s; use_t := use_t s; armed := armed s; rd := rd s; minsz := minsz s; res := res s |}
+    else s
+  | LDefer2 =>
+    (* ... but when the CAS succeeded, safeCloseNotify wakes a reader parked inside that callback *)
+    if dpc s then
+      {| pend := pend s; rbuf := rbuf s; token := token s; closeN := true; ss := ss s; epc := epc s;
+         ppc := ppc s; lc := lc s; sclosing := sclosing s; dpc := false; now := now s; dl := dl s; tmr := tmr s;
          tch := tch s; use_t := use_t s; armed := armed s; rd := rd s; minsz := minsz s; res := res s |}
     else s
   | SClose =>
     {| pend := pend s; rbuf := rbuf s; token := token s; closeN := true; ss := ss s; epc := epc s;
-       ppc := ppc s; lc := lc s; sclosing := true; cbhalf := cbhalf s; now := now s; dl := dl s; tmr := tmr s;
+       ppc := ppc s; lc := lc s; sclosing := true; dpc := dpc s; now := now s; dl := dl s; tmr := tmr s;
        tch := tch s; use_t := use_t s; armed := armed s; rd := rd s; minsz := minsz s; res := res s |}
   | SetDL d =>
     match rd s with
     | RIdle | RDone =>
       {| pend := pend s; rbuf := rbuf s; token := token s; closeN := closeN s; ss := ss s; epc := epc s;
-         ppc := ppc s; lc := lc s; sclosing := sclosing s; cbhalf := cbhalf s; now := now s; dl := d; tmr := tmr s;
+         ppc := ppc s; lc := lc s; sclosing := sclosing s; dpc := dpc s; now := now s; dl := d; tmr := tmr s;
          tch := tch s; use_t := use_t s; armed := armed s; rd := rd s; minsz := minsz s; res := res s |}
     | _ => s
     end
   | Tick d =>
     if 0 <? d then
       {| pend := pend s; rbuf := rbuf s; token := token s; closeN := closeN s; ss := ss s; epc := epc s;
-         ppc := ppc s; lc := lc s; sclosing := sclosing s; cbhalf := cbhalf s; now := now s + d; dl := dl s; tmr := tmr s;
+         ppc := ppc s; lc := lc s; sclosing := sclosing s; dpc := dpc s; now := now s + d; dl := dl s; tmr := tmr s;
          tch := tch s; use_t := use_t s; armed := armed s; rd := rd s; minsz := minsz s; res := res s |}
     else s
   | Fire =>
@@ -252,7 +261,7 @@ Definition step (s : st) (e : ev) : st :=
     | Some t =>
       if t <=? now s then
         {| pend := pend s; rbuf := rbuf s; token := token s; closeN := closeN s; ss := ss s; epc := epc s;
-           ppc := ppc s; lc := lc s; sclosing := sclosing s; cbhalf := cbhalf s; now := now s; dl := dl s; tmr := None;
+           ppc := ppc s; lc := lc s; sclosing := sclosing s; dpc := dpc s; now := now s; dl := dl s; tmr := None;
            tch := true; use_t := use_t s; armed := armed s; rd := rd s; minsz := minsz s; res := res s |}
       else s
     | None => s
@@ -265,7 +274,7 @@ Definition run (evs : list ev) (s : st) : st := fold_left step evs s.
 Definition wake_enabled (s : st) : bool := token s || closeN s || (use_t s && tch s).
 (* a helper thread is at the step that will make a branch ready *)
 Definition helper_pending (s : st) : bool :=
-  epc s || ppc s
+  epc s || ppc s || dpc s
   || match lc s with LCased SOpen | LCleaned SOpen => true | _ => false end
   || match tmr s with Some t => t <=? now s | None => false end.
 Definition is_reader_ev (e : ev) : bool := match e with RCall _ | RStep | RWake _ => true | _ => false end.
@@ -409,3 +418,106 @@ Definition step2 (s : sst2) (e : ev2) : sst2 :=
   end.
 
 Definition run2 (evs : list ev2) (s : sst2) : sst2 := fold_left step2 evs s.
+
+(* ------------------------------------------------------------------------------------------ *)
+(* Part 4: the socket-write hand-off (session.go send 440-465, wakeUpPeer 616-631, hotRestart     *)
+(* 701-709, waitForSendErr 393-427)                                                             *)
+(* ------------------------------------------------------------------------------------------ *)
+(* `writing` serialises writes to the socket.  The send loop takes an item from sendCh, then spins
+   `for !CAS(writing,0,1) { <-notifyContinueWriteCh }`, writes, stores 0.  A fast-path thread (Flush ->
+   wakeUpPeer, hotRestart) does CAS(writing,0,1); write; store 0; asyncNotify(notifyContinueWriteCh);
+   when its CAS fails it takes the SLOW PATH `s.sendCh <- sendReady{...}` - a plain send, no select, no
+   timeout.  A write blocks while the socket is full (peer not reading).                          *)
+Inductive slpc := SLIdle | SLSpin | SLWrite.
+Inductive fpc := FPIdle | FPHold | FPNotify | FPBlocked.
+
+Record hs := {
+  sq : nat; scap : nat;   (* items in sendCh / its capacity (4096) *)
+  hwriting : bool;        (* s.writing *)
+  htok : bool;            (* notifyContinueWriteCh holds a value *)
+  sl : slpc;              (* the send loop *)
+  fp : fpc;               (* a thread in wakeUpPeer / hotRestart *)
+  sock_full : bool }.     (* environment: a write to the socket would block *)
+
+Inductive hev :=
+| HEnq            (* waitForSendErr: `case s.sendCh <- ready` (when full the caller times out instead) *)
+| HTake           (* send loop: `ready := <-s.sendCh`, then the first CAS *)
+| HWake           (* send loop: `<-s.notifyContinueWriteCh`, then CAS again *)
+| HWriteDone      (* send loop: the write returned; writing := 0 *)
+| HFpTry          (* fast-path thread: CAS; on failure the slow-path send (blocks when sendCh is full) *)
+| HFpDone         (* fast-path thread: the write returned; writing := 0 *)
+| HFpNotify       (* fast-path thread: asyncNotify(notifyContinueWriteCh) *)
+| HUnblock        (* the blocked slow-path send completes (a slot became free) *)
+| HSock (full : bool).
+
+Definition inith (c : nat) : hs :=
+  {| sq := 0; scap := c; hwriting := false; htok := false; sl := SLIdle; fp := FPIdle; sock_full := false |}.
+
+Definition steph (s : hs) (e : hev) : hs :=
+  match e with
+  | HEnq => if (sq s <? scap s)%nat
+            then {| sq := S (sq s); scap := scap s; hwriting := hwriting s; htok := htok s; sl := sl s; fp := fp s; sock_full := sock_full s |}
+            else s
+  | HTake =>
+    match sl s, sq s with
+    | SLIdle, S q =>
+      if hwriting s
+      then {| sq := q; scap := scap s; hwriting := true; htok := htok s; sl := SLSpin; fp := fp s; sock_full := sock_full s |}
+      else {| sq := q; scap := scap s; hwriting := true; htok := htok s; sl := SLWrite; fp := fp s; sock_full := sock_full s |}
+    | _, _ => s
+    end
+  | HWake =>
+    match sl s with
+    | SLSpin =>
+      if htok s then
+        if hwriting s
+        then {| sq := sq s; scap := scap s; hwriting := true; htok := false; sl := SLSpin; fp := fp s; sock_full := sock_full s |}
+        else {| sq := sq s; scap := scap s; hwriting := true; htok := false; sl := SLWrite; fp := fp s; sock_full := sock_full s |}
+      else s
+    | _ => s
+    end
+  | HWriteDone =>
+    match sl s with
+    | SLWrite => if sock_full s then s
+                 else {| sq := sq s; scap := scap s; hwriting := false; htok := htok s; sl := SLIdle; fp := fp s; sock_full := sock_full s |}
+    | _ => s
+    end
+  | HFpTry =>
+    match fp s with
+    | FPIdle =>
+      if hwriting s then
+        if (sq s <? scap s)%nat
+        then {| sq := S (sq s); scap := scap s; hwriting := true; htok := htok s; sl := sl s; fp := FPIdle; sock_full := sock_full s |}
+        else {| sq := sq s; scap := scap s; hwriting := true; htok := htok s; sl := sl s; fp := FPBlocked; sock_full := sock_full s |}
+      else {| sq := sq s; scap := scap s; hwriting := true; htok := htok s; sl := sl s; fp := FPHold; sock_full := sock_full s |}
+    | _ => s
+    end
+  | HFpDone =>
+    match fp s with
+    | FPHold => if sock_full s then s
+                else {| sq := sq s; scap := scap s; hwriting := false; htok := htok s; sl := sl s; fp := FPNotify; sock_full := sock_full s |}
+    | _ => s
+    end
+  | HFpNotify =>
+    match fp s with
+    | FPNotify => {| sq := sq s; scap := scap s; hwriting := hwriting s; htok := true; sl := sl s; fp := FPIdle; sock_full := sock_full s |}
+    | _ => s
+    end
+  | HUnblock =>
+    match fp s with
+    | FPBlocked => if (sq s <? scap s)%nat
+                   then {| sq := S (sq s); scap := scap s; hwriting := hwriting s; htok := htok s; sl := sl s; fp := FPIdle; sock_full := sock_full s |}
+                   else s
+    | _ => s
+    end
+  | HSock b => {| sq := sq s; scap := scap s; hwriting := hwriting s; htok := htok s; sl := sl s; fp := fp s; sock_full := b |}
+  end.
+
+Definition runh (evs : list hev) (s : hs) : hs := fold_left steph evs s.
+
+(* can anything but the environment (the peer reading its socket again) make progress? *)
+Definition stuckh (s : hs) : bool :=
+  match fp s, sl s with
+  | FPBlocked, SLWrite => sock_full s && Nat.eqb (sq s) (scap s)
+  | _, _ => false
+  end.
